@@ -43,6 +43,7 @@ def file_effects(cg: CallGraph, fqs: Set[str]) -> List[str]:
 
 def check(ctx):
     repo = ctx.repo
+    ctx.rule("R19.4", "validation checks the options, it does not change them (only a solver name is replaced by its enum member)", 1)
     ctx.rule("R19.1", "every validation site precedes the first statement that can create a file or directory", 4)
     ctx.rule("R19.2", "after that point only state-dependent failures (RuntimeError, I/O) can be raised, up to a short allow-list", 1)
     ctx.rule("R19.3", "each class of ill-posed input has a guard whose predicate depends on that input and accepts/rejects the right side of the boundary", 14)
@@ -127,6 +128,8 @@ def check(ctx):
     guards(ctx, f_init, f_solve)
     option_ranges(ctx)
     ctx.assume("R15.1-2 cover rejections that come from the handler itself")
+    from ..effects import options_readonly
+    options_readonly(ctx, "R19.4", "an inconsistent or unusual option set is silently 'repaired' instead of being used as given or rejected")
     ctx.decline("'unbalanced at any time' for callable currents: the validator samples 100 random times, so a time-localised "
                 "imbalance is accepted with positive probability - no static rule makes a sampling test exhaustive")
 
